@@ -83,13 +83,23 @@ class C13(Engine):
                     hist.append({"cpu": h["cpu"], "code": "\n".join("\n".join(s) for s in h["stmts"][1:]) + "\n"})
                 p["history"] = hist
             perts.append(p)
-        return {"prog": prog, "type": typ, "perts": perts}
+        pad = 0
+        if rng.chance(1, 12):
+            # a tall source: one of the statements sits on source line 2^16 - 1 (or 2^15 - 1, 2^17 - 1): the image keeps a source
+            # line number per byte, and what the writers do with it must not depend on the output type
+            nlines = max(progs.render(prog).count("\n"), 2)
+            pad = rng.pick([65535, 65535, 65535, 32767, 131071]) - rng.range(2, nlines)
+        return {"prog": prog, "type": typ, "perts": perts, "pad_lines": pad}
 
     def run(self, ex, plan):
         res = RunResult()
         prog = plan["prog"]
         typ = plan["type"]
         files = progs.fs_for(prog)
+        if plan.get("pad_lines"):
+            first, rest = files["/sim/w/a.asm"].split(b"\n", 1)
+            files["/sim/w/a.asm"] = first + b"\n" + b"\n" * plan["pad_lines"] + rest
+            res.probe("tall_source")
         digests = []
 
         def asm(argv, env=None, extra_files=None, faults=(), build=None):
